@@ -142,6 +142,15 @@ package storagesc
 //@   requires ssc != nil && t != nil && balances != nil
 //@   at-call update assert[owner-only] conf.OwnerId == t.ClientID
 //@   at-call InsertTrieNode assert[config-validated-when-saved] typeis($arg2, "*0chain.net/smartcontract/storagesc.Config") ==> $cfgValid[obj($arg2)]
+// commit_settings_changes can be sent by anybody and re-applies the pending list: that is safe only as
+// long as every configuration update_settings writes is also recorded (merged) in the pending list by
+// the same call - otherwise a later commit re-applies values the owner has replaced since.
+//   $cfgWrites / $pendingWrites   number of configuration / pending-list writes made by this call
+//@   at-call saveConfig ghost $cfgWrites += 1
+//@   at-call InsertTrieNode ghost $pendingWrites += (typeis($arg2, "*0chain.net/core/config.StringMap") ? 1 : 0)
+//@   ensures[a-saved-configuration-is-also-recorded-as-pending] $cfgWrites > old($cfgWrites) ==> $pendingWrites > old($pendingWrites)
+//@ ghost $cfgWrites Int accumulator
+//@ ghost $pendingWrites Int accumulator
 //@ func (*StorageSmartContract).commitSettingChanges
 //@   prop C48
 //@   requires ssc != nil && balances != nil
